@@ -2,7 +2,10 @@
 from ..ech import H
 
 LEVEL = "model_checking"
+ENGINE = "E-CH+E-TS"
 EXPLANATION = (
+    "E-TS slice x9: two threads in the real ResourceTracker.ensure_running over a kernel model (a healthy tracker whose "
+    "pipe is closed sweeps the semaphores of live objects), all interleavings, replayed. "
     "Composition executed symbolically (CrossHair/z3): the real SemLock.__init__ / _cleanup / __getstate__ / "
     "__setstate__ run against a fake kernel semaphore namespace (C _SemLock raising FileExistsError a symbolic "
     "number of times, sem_unlink raising FileNotFoundError when absent), the messages the client side sent are fed "
@@ -18,7 +21,9 @@ M = "lokyverif.harness.c13_semlock"
 
 def units(tier):
     big = tier == "thorough"
-    return [("lokyverif.ets.units_exec", "slice_unit", dict(prop="C13", name="slice.tracker_race", builder="x9_tracker_race", K=40, timeout_s=1200)),
+    return [("lokyverif.ets.units_exec", "slice_unit", dict(prop="C13", name="slice.tracker_race", builder="x9_tracker_race", K=44, timeout_s=1200)),
+            H("C13", "lokyverif.harness.c11_tracker", "check_failing_cleanup", 400, ["loky.backend.resource_tracker:main"],
+              "the end-of-life sweep destroys everything still counted also when warnings are errors in the tracker process (-W error inherited from the parent)"),
             H("C13", M, "check_kill_points", 400, ["loky.backend.synchronize:SemLock.__init__", "loky.backend.synchronize:SemLock._cleanup",
                                                    "loky.backend.resource_tracker:main"],
               "owner SIGKILLed after 2..4 of the externally visible effects (create, REGISTER, unlink, UNREGISTER) or never; early user unlink or not"),
